@@ -38,6 +38,23 @@ def collect(h):
         sh = h.go_int(h.find(rel, r"^\s*" + go + r"\s*=\s*uint16\(1\s*<<\s*([0-9]+)\)\s*$", go).group(1))
         items.append((nm, "N", str(1 << sh), rel))
 
+    # the system-field mask carries "sys.IsActive was assigned" (no payload): constant, store and load anchors
+    mconst = re.search(r"^\s*sfm_IsActiveModified\s*=\s*uint16\(1\s*<<\s*([0-9]+)\)\s*$", h.src(rel), re.M)
+    td = "pkg/istructsmem/types-dynobuf.go"
+    st = h.func_body(td, r"^func storeRowSysFields\(", "storeRowSysFields")
+    ld = h.func_body(td, r"^func loadRowSysFields\(", "loadRowSysFields")
+    st_ok = bool(re.search(r"if\s+row\.isActiveModified\s*\{\s*sysFieldMask\s*\|=\s*sfm_IsActiveModified\s*\}", st))
+    ld_ok = bool(re.search(r"row\.isActiveModified\s*=\s*\(sysFieldMask\s*&\s*sfm_IsActiveModified\)\s*==\s*sfm_IsActiveModified", ld))
+    any_use = "sfm_IsActiveModified" in st or "sfm_IsActiveModified" in ld or "isActiveModified" in st or "isActiveModified" in ld
+    if mconst and st_ok and ld_ok:
+        items.append(("c02_mask_carries_actmod", "bool", "true", td + " storeRowSysFields/loadRowSysFields"))
+        items.append(("c02_sfm_actmod", "N", str(1 << h.go_int(mconst.group(1))), rel))
+    elif not mconst and not any_use:
+        items.append(("c02_mask_carries_actmod", "bool", "false", td + " storeRowSysFields/loadRowSysFields"))
+        items.append(("c02_sfm_actmod", "N", "16", rel + " (bit not defined: unused)"))
+    else:
+        raise h.Missing(f"{td}: sfm_IsActiveModified: constant / store / load anchors do not agree (const={bool(mconst)} store={st_ok} load={ld_ok})")
+
     rel = "pkg/istructsmem/event-types.go"
     body = h.func_body(rel, r"^func \(ev \*eventType\) loadFromBytes\(", "loadFromBytes")
     m = re.search(r"case\s+([\w, ]+):\s*if err := loadEvent\(", body)
